@@ -6,7 +6,7 @@ import vlib, gen, props
 n = int(sys.argv[1]) if len(sys.argv) > 1 else 4000
 rng = random.Random(int(os.environ.get('VERIF_SEED', '7')))
 ctx = props.Ctx('FID', 'quick', 7)
-vlib.build_harness(('s1',))
+vlib.build_harness(('s1',)); print(vlib.coq_make()[0], vlib.build_driver())
 sets = [('struct', gen.grid_struct_lines()), ('enum', gen.grid_enum_lines(full=False)), ('vfield', gen.grid_variant_fields()), ('trait', gen.grid_trait_instrs()),
         ('comp', gen.composites(rng, n)), ('c03', gen.c03_cases(rng, n // 2)), ('c06', gen.c06_cases(rng, n // 2)), ('c10', gen.c10_cases(rng, n // 4)),
         ('short', gen.shortcut_items(rng, n // 4)), ('corpus', props.corpus_cases())]
